@@ -56,6 +56,7 @@ type c06sys struct {
 	apiKeys   []string // configured keys
 	cfg       server.AuthRateLimitConfig
 	lockouts  bool // whether the jwt path has failure tracking (always true in this code base)
+	v6        bool // clients connect from IPv6 addresses
 }
 
 func (y *c06sys) creds(kind string) []string {
@@ -163,8 +164,18 @@ func c06shape(s *sim.Sim, y *c06sys, rt c06route, r *c06req) {
 	r.badCred = !r.canonical
 }
 
+// c06peer renders the socket peer address of a client: IPv4, or IPv6 hosts that share their
+// leading groups (identity is the whole host, whatever the address family).
+func c06peer(v6 bool, client int, port int) string {
+	if v6 {
+		return fmt.Sprintf("[2001:db8::%x]:%d", client+1, port)
+	}
+	return fmt.Sprintf("10.0.1.%d:%d", client+1, port)
+}
+
 func c06build(s *sim.Sim, p *sim.Params) *c06sys {
 	y := &c06sys{lockouts: true}
+	y.v6 = s.Choose(sim.SWork, 3) == 0
 	y.direct = s.Choose(sim.SWork, 10) < 4
 	if p.Knob("direct", -1) >= 0 {
 		y.direct = p.Knob("direct", 0) == 1
@@ -187,7 +198,7 @@ func c06build(s *sim.Sim, p *sim.Params) *c06sys {
 		})
 		y.do = func(r *c06req) {
 			req := httptest.NewRequest("GET", r.route.path, nil)
-			req.RemoteAddr = fmt.Sprintf("10.0.1.%d:%d", r.client+1, 30000+int(r.call%20000))
+			req.RemoteAddr = c06peer(y.v6, r.client, 30000+int(r.call%20000))
 			for _, kv := range r.hdr {
 				req.Header.Add(kv[0], kv[1])
 			}
@@ -225,7 +236,7 @@ func c06build(s *sim.Sim, p *sim.Params) *c06sys {
 		s.InfraFail("C06: cannot build server: " + err.Error())
 	}
 	y.do = func(r *c06req) {
-		resp := sv.do(simReq{path: r.route.path, remote: fmt.Sprintf("10.0.1.%d:%d", r.client+1, 30000+int(r.call%20000)), headers: r.hdr})
+		resp := sv.do(simReq{path: r.route.path, remote: c06peer(y.v6, r.client, 30000+int(r.call%20000)), headers: r.hdr})
 		r.status, r.body = resp.status, resp.body
 	}
 	return y
@@ -310,7 +321,7 @@ func c06check(s *sim.Sim, y *c06sys, hist []*c06req, sample *[]string) {
 	for _, r := range hist {
 		*sample = append(*sample, fmt.Sprintf("t=%v c%d [%d,%d] %s %s -> %d ran=%v", r.at, r.client, r.call, r.ret, r.route.path, r.shape, r.status, strings.Contains(r.body, r.route.marker)))
 	}
-	for i, r := range hist {
+	for _, r := range hist {
 		ran := strings.Contains(r.body, r.route.marker)
 		// no response may carry another route's marker
 		for _, o := range c06routes {
@@ -354,12 +365,35 @@ func c06check(s *sim.Sim, y *c06sys, hist []*c06req, sample *[]string) {
 			}
 			continue
 		}
-		// (iii)/(iv) valid bearer credential: must pass whenever a lockout is impossible
-		// failures that may still count: issued by the same client, overlapping or after the last
-		// success that completed before this request was invoked
-		var lastSucc *c06req
-		for _, o := range hist[:i] {
-			if o.client == r.client && o.route.path == r.route.path && o.status == 200 && o.ret < r.call {
+		// (iii)/(iv) valid bearer credential: must pass whenever a lockout is impossible.
+		// The failure count is replayed conservatively from the documented configuration
+		// (MaxFailures, ResetAfter, MaxLockout): every bad-credential request counts as a failure
+		// (even one the implementation rejected early), the count restarts after a success that no
+		// failed attempt overlaps and after more than ResetAfter without a failure, and reaching
+		// MaxFailures may lock the client for at most MaxLockout. How long a lockout actually lasts
+		// in between (the doubling arithmetic) is deliberately not mirrored.
+		fails, streak := 0, 0
+		var lastFailAt time.Duration = -1
+		var lockPossibleUntil time.Duration = -1
+		for _, o := range hist {
+			if o == r || o.client != r.client || o.route.path != r.route.path || o.call > r.ret {
+				continue
+			}
+			if o.badCred {
+				if streak > 0 && o.at-lastFailAt > y.cfg.ResetAfter+guard {
+					streak = 0
+				}
+				streak++
+				fails++
+				lastFailAt = o.at
+				if streak >= y.cfg.MaxFailures {
+					if u := o.at + y.cfg.MaxLockout; u > lockPossibleUntil {
+						lockPossibleUntil = u
+					}
+				}
+				continue
+			}
+			if o.status == 200 && o.ret < r.call {
 				// only a success that no failed attempt overlaps is a clean reset point: a failure in
 				// flight together with it may have set a lockout that the success does not clear
 				clean := true
@@ -369,44 +403,30 @@ func c06check(s *sim.Sim, y *c06sys, hist []*c06req, sample *[]string) {
 						break
 					}
 				}
-				if clean && (lastSucc == nil || o.call > lastSucc.call) {
-					lastSucc = o
+				if clean {
+					streak = 0
 				}
 			}
 		}
-		fails := 0
-		var lastFailAt time.Duration = -1
-		for _, o := range hist {
-			if o == r || o.client != r.client || o.route.path != r.route.path || !o.badCred {
-				continue
-			}
-			if o.call > r.ret {
-				continue
-			}
-			if lastSucc != nil && o.ret < lastSucc.call {
-				continue
-			}
-			fails++
-			if o.at > lastFailAt {
-				lastFailAt = o.at
-			}
-		}
-		impossible := fails < y.cfg.MaxFailures || r.at-lastFailAt > y.cfg.MaxLockout+guard
+		impossible := lockPossibleUntil < 0 || r.at > lockPossibleUntil+guard
 		if fails == 0 {
 			s.Probe("valid-from-clean-client")
 		}
-		if fails >= y.cfg.MaxFailures {
+		if lockPossibleUntil >= 0 {
 			s.Probe("lockout-threshold-crossed")
 			if r.status == 200 {
 				s.Probe("accepted-after-lockout-expired")
 			}
+		}
+		if fails >= y.cfg.MaxFailures && lockPossibleUntil < 0 {
+			s.Probe("failures-aged-out-before-threshold")
 		}
 		if impossible && r.status != 200 {
 			site := "valid-rejected:jwt"
 			if fails == 0 {
 				site = "clean-client-locked-out"
 			}
-			s.Fail("oracle", site, fmt.Sprintf("client %d sent the canonical valid credential at %v and got %d although a lockout is impossible (%d failed attempts since its last success, MaxFailures=%d, last failure at %v, MaxLockout=%v)", r.client, r.at, r.status, fails, y.cfg.MaxFailures, lastFailAt, y.cfg.MaxLockout))
+			s.Fail("oracle", site, fmt.Sprintf("client %d sent the canonical valid credential at %v and got %d although a lockout is impossible (%d failed attempts in all, current streak %d, MaxFailures=%d, ResetAfter=%v, last failure at %v, a lockout could last until %v at most, MaxLockout=%v)", r.client, r.at, r.status, fails, streak, y.cfg.MaxFailures, y.cfg.ResetAfter, lastFailAt, lockPossibleUntil, y.cfg.MaxLockout))
 		}
 	}
 }
